@@ -59,7 +59,10 @@ def obs_cmd(rng) -> tuple:
     return (k,)
 
 
-def one(rng, replace: bool = False):
+RO_KINDS = ('intoRO', 'copyRO', 'moveRO')
+
+
+def one(rng, replace: bool = False, backend: str = 'dict'):
     """replace: after `a` has EXAMINEd INBOX another session renames INBOX away (the name INBOX
     then denotes a new, empty mailbox) and delivers into the new one; whatever `a`'s selection is
     bound to afterwards, no command issued in it may change that mailbox, which is read-write."""
@@ -67,13 +70,18 @@ def one(rng, replace: bool = False):
     sessions = ['a', 'b', 'c'][:1 + nobs]
     init = [rng.choice([(), ('\\Seen',), ('\\Deleted',), ('\\Deleted', '\\Seen')])
             for _ in range(rng.randint(2, 4))]
-    run = SyncRun(init_flags=init, sessions=sessions, controlled=True, boxes=('Box', 'RO'),
-                  claim_recent=rng.random() < 0.4)
+    md = backend != 'dict'
+    # maildir: no backend-read-only mailbox exists (Mailbox.readonly is constantly False): the
+    # read-only selection is EXAMINE, the stored state is the directory (flags = info letters,
+    # stored recent bit = the file is still in new/)
+    run = SyncRun(backend=backend, init_flags=init, sessions=sessions, controlled=True,
+                  boxes=('Box',) if md else ('Box', 'RO'), claim_recent=rng.random() < 0.4)
     log = []
     try:
         # the backend-read-only mailbox, as pymap's demo data makes one
-        run.make_readonly_box('RO', 2)
-        target = 'INBOX' if replace else rng.choice(['INBOX', 'INBOX', 'RO'])
+        if not md:
+            run.make_readonly_box('RO', 2)
+        target = 'INBOX' if replace or md else rng.choice(['INBOX', 'INBOX', 'RO'])
         for s in sessions[1:]:
             how = 'examine' if replace else rng.choice(['select', 'examine'])
             for cmd in ((how, target), ('fetch', False, '1:*', False)):
@@ -94,7 +102,8 @@ def one(rng, replace: bool = False):
                 run.finish('b')
                 log.append(('cmd', 'b', cmd))
         run.dump(target, norw)
-        run.dump('RO')
+        dump_ro = (lambda: None) if md else (lambda: run.dump('RO'))
+        dump_ro()
         ncmds = rng.randint(2, 6)
         issued = 0
         closed = False
@@ -114,6 +123,8 @@ def one(rng, replace: bool = False):
             if act == 'issue':
                 if s == 'a':
                     cmd = ro_cmd(rng) if issued < ncmds - 1 or rng.random() < 0.5 else ('close',)
+                    while md and 'RO' in cmd:
+                        cmd = ro_cmd(rng)
                     cmd = tuple(target if x == 'SELF' else x for x in cmd)
                     issued += 1
                     closed = cmd == ('close',)
@@ -129,16 +140,16 @@ def one(rng, replace: bool = False):
                 if s == 'a' and any(e['e'] == 'tagged' and e['s'] == 'a'
                                     for e in run.events[before:]):
                     run.dump(target, norw)
-                    run.dump('RO')
+                    dump_ro()
         for s in sessions:
             before = len(run.events)
             run.finish(s)
             if s == 'a' and any(e['e'] == 'tagged' and e['s'] == 'a' for e in run.events[before:]):
                 run.dump(target, norw)
-                run.dump('RO')
+                dump_ro()
         run.quiesce()
         run.dump(target, norw)
-        run.dump('RO')
+        dump_ro()
     finally:
         run.close()
     return run, log
@@ -156,7 +167,9 @@ def main(tier: str) -> int:
         '\\Deleted messages present, delivery into RO); distinct = distinct command sequences of the '
         'session under test')
     run.assumptions += ['other sessions only observe (the property\'s wording)',
-                        'dict backend; glass-box dump of MailboxData._messages incl. stored recent bits']
+                        'dict backend: glass-box dump of MailboxData._messages incl. stored recent bits; '
+                        'maildir backend: the dump is the directory listing + dovecot-uidlist, read '
+                        'independently of pymap (flags = info letters, stored recent bit = file in new/)']
     res = tlc.run_tlc('MailboxSync.tla', 'MailboxSync_ideal_small.cfg' if tier == 'quick'
                       else 'MailboxSync_ideal.cfg', workers=16, timeout=3000)
     run.add_model(res, 'ideal (ReadOnlyInert)')
@@ -173,6 +186,23 @@ def main(tier: str) -> int:
         traces.append(sr.events)
         meta.append({'recipe': sr.recipe, 'kind': 'ro-program-name-replaced' if k >= n else 'ro-program',
                      'schedule': log})
+    # the same programs on the maildir backend (anchored in pymap/backend/maildir/mailbox.py):
+    # EXAMINE only, the dump is read from the directory and the uidlist independently of pymap
+    from . import synccheck
+    nmd = 150 if tier == 'quick' else 2500
+    rmd = random.Random(run.seed * 7919 + 1212)
+    synccheck.UID_BASE[0] = 0
+    try:
+        for k in range(nmd):
+            sr, log = one(rmd, backend='maildir')
+            for e in sr.errors:
+                run.notes.setdefault('harness_errors', []).append(e)
+            traces.append(sr.events)
+            meta.append({'recipe': sr.recipe, 'kind': 'ro-program', 'backend': 'maildir',
+                         'schedule': log})
+    finally:
+        synccheck.UID_BASE[0] = 100
+    run.notes['maildir_programs'] = nmd
     verdicts, vres = tlc.validate_total('Trace_RO.tla', 'Trace_RO.cfg', traces)
     if len(verdicts) != len(traces):
         run.machinery('trace validation incomplete: ' + (vres.error or vres.output[-800:]))
